@@ -390,16 +390,20 @@ Section SegJ.
       now apply (bez_map_local (rotate_point N cs o)).
     - injection H as <-. cbn. auto.
   Qed.
-  Lemma transform_local eig (M : Mat3 K) : mat_is_identity N M = false ->
-    seg_endpoint_local (seg_transform N T eig M) (tf_point N M).
+  Lemma transform_local tfx eig (M : Mat3 K) : mat_is_identity N M = false ->
+    seg_endpoint_local (seg_transform N T tfx eig M) (tf_point N M).
   Proof.
     intros Hid [p|P] s' Hok H; cbn [seg_transform] in H.
     - rewrite Hid in H. cbn [seg_start seg_end].
       now apply (bez_map_local (tf_point N M)).
-    - injection H as <-. unfold arc_transform. rewrite Hid.
-      destruct (eig _) as [[ev0 ev1] [[v00 v01] [v10 v11]]].
-      destruct M as [[[[m00 m01] m02] [[m10 m11] m12]] [[m20 m21] m22]].
-      destruct (_ || _); cbn; auto.
+    - injection H as <-. unfold arc_transform_v. destruct tfx.
+      + unfold arc_transform_fixed. rewrite Hid.
+        destruct (_ || _); [cbn; auto|].
+        destruct (eqb N _ _); cbn; auto.
+      + unfold arc_transform. rewrite Hid.
+        destruct (eig _) as [[ev0 ev1] [[v00 v01] [v10 v11]]].
+        destruct M as [[[[m00 m01] m02] [[m10 m11] m12]] [[m20 m21] m22]].
+        destruct (_ || _); cbn; auto.
   Qed.
 
   (* the path-level consequence: with the joints() of the code, translate / rotate
